@@ -7,6 +7,7 @@ import (
 	"os"
 	"runtime"
 	"time"
+	"verif.local/harness/sched"
 
 	"verif.local/harness/common"
 	"verif.local/harness/gnet"
@@ -68,6 +69,11 @@ func gossipRuns(id, tier string) []gRun {
 					out = append(out, gRun{fmt.Sprintf("%s/origin=%s/pair-then-third", t, origin),
 						gnet.Cfg{Nodes: topoNodes[t], Edges: topologies[t], Origin: origin, Items: "pair-then-third", SyncRPC: true, Prop: "C11"}, 40})
 				}
+				if len(topoNodes[t]) <= 3 && t != "triangle" {
+					// two vertices proposed back to back at the origin: both are queued before the origin's gossip loop runs
+					out = append(out, gRun{fmt.Sprintf("%s/origin=%s/two-vertices-burst", t, origin),
+						gnet.Cfg{Nodes: topoNodes[t], Edges: topologies[t], Origin: origin, Items: "two-vertices-burst", SyncRPC: true, Prop: "C11"}, 40})
+				}
 				for _, it := range items {
 					dup := len(topoNodes[t]) <= 3
 					// the duplicate-suppression window may lapse once per node on the cyclic 4-node graphs (single vertex item)
@@ -128,6 +134,13 @@ func gossipMain(id string, args []string) int {
 	replay := fs.String("replay", "", "replay a violation file")
 	fs.Parse(args)
 	runs := gossipRuns(id, common.Tier())
+	if id == "C11" && fs.NArg() >= 1 && fs.Arg(0) == "schedworker" {
+		sched.WorkerMain(c11Scenarios())
+		return 0
+	}
+	if id == "C11" && *replay != "" && isSchedReplay(*replay) {
+		return sched.ReplayFile("C11", c11Scenarios(), *replay)
+	}
 	if *replay != "" {
 		// the run may belong to the other tier's list
 		seen := map[string]bool{}
@@ -200,6 +213,14 @@ func gossipMain(id string, args []string) int {
 		}
 	}
 	space.FillEvidence(rep, total)
+	if id == "C11" && (*run == "" || *run == "sched") {
+		pool.Close()
+		ex, div := schedPart(rep, "C11", c11Scenarios(), *procs, 0)
+		if !ex {
+			rep.Set("sched_note", "SCHED part (first hop) capped; the SPACE part is unaffected")
+		}
+		total.Diverged += div
+	}
 	rep.Set("runs", perRun)
 	rep.Set("runs_total", len(perRun))
 	rep.Set("runs_in_which_every_path_reaches_quiescence", terminated)
